@@ -132,7 +132,7 @@ func runOpt1(m *Model, r *RuleResult) {
 			}
 		}
 		if ephi == nil {
-			if opt1StepForm(m, r, f, pivotLoop, key, pos, ctl) {
+			if opt1StepForm(m, r, f, pivotLoop, key, pos, ctl) || opt1InLoopForm(m, r, f, pivotLoop, key, pos, ctl) {
 				continue
 			}
 			r.add(Obligation{Key: key + ":runs-while-leave-edge", Pos: pos, Desc: "the pivot loop runs while a leave edge exists", Verdict: "violation", Detail: "the loop condition is not `leaveEdge != nil`", Control: ctl})
@@ -343,32 +343,72 @@ func checkEnterSelector(m *Model, r *RuleResult, sel *ssa.Function, ctl bool) {
 			bad = append(bad, "the selector can return before the scan is complete")
 		}
 		// paired strict argmin: the edge where cand changes is the true edge of x < minphi, where minphi takes x on the same edge
-		for i, e := range cand.Edges {
-			if e == ssa.Value(cand) {
-				continue
+		// (with `continue` in a three-clause loop the new values first meet in a phi of the post block: look through it)
+		flowsTo := func(q, head *ssa.Phi) bool {
+			seen := map[*ssa.Phi]bool{}
+			var rec func(h *ssa.Phi) bool
+			rec = func(h *ssa.Phi) bool {
+				if h == q {
+					return true
+				}
+				if seen[h] {
+					return false
+				}
+				seen[h] = true
+				for _, e := range h.Edges {
+					if ph, ok := e.(*ssa.Phi); ok && rec(ph) {
+						return true
+					}
+				}
+				return false
 			}
-			if c, isC := e.(*ssa.Const); isC && c.Value == nil {
-				continue
+			return rec(head)
+		}
+		seenPhi := map[*ssa.Phi]bool{}
+		var expand func(ph *ssa.Phi)
+		expand = func(ph *ssa.Phi) {
+			if seenPhi[ph] {
+				return
 			}
-			pred := cand.Block().Preds[i]
-			okPair := false
-			for _, d := range controlDeps(pred) {
-				bo, ok := d.If.Cond.(*ssa.BinOp)
-				if !ok || bo.Op != token.LSS || d.Branch != 0 {
+			seenPhi[ph] = true
+			for i, e := range ph.Edges {
+				if e == ssa.Value(cand) {
 					continue
 				}
-				minphi, ok := bo.Y.(*ssa.Phi)
-				if !ok || minphi.Block() != cand.Block() || i >= len(minphi.Edges) {
+				if c, isC := e.(*ssa.Const); isC && c.Value == nil {
 					continue
 				}
-				if minphi.Edges[i] == bo.X {
-					okPair = true
+				if inner, ok := e.(*ssa.Phi); ok && l.Body[inner.Block()] {
+					expand(inner)
+					continue
 				}
-			}
-			if !okPair {
-				bad = append(bad, "a candidate is taken without a strict `slack < minimum` test that also records the new minimum")
+				pred := ph.Block().Preds[i]
+				okPair := false
+				for _, d := range transitiveControlDepsWithin(pred, l) {
+					bo, ok := d.If.Cond.(*ssa.BinOp)
+					if !ok || bo.Op != token.LSS || d.Branch != 0 {
+						continue
+					}
+					minphi, ok := bo.Y.(*ssa.Phi)
+					if !ok || minphi.Block() != cand.Block() {
+						continue
+					}
+					for _, in := range ph.Block().Instrs {
+						q, isPhi := in.(*ssa.Phi)
+						if !isPhi {
+							break
+						}
+						if i < len(q.Edges) && q.Edges[i] == bo.X && flowsTo(q, minphi) {
+							okPair = true
+						}
+					}
+				}
+				if !okPair {
+					bad = append(bad, "a candidate is taken without a strict `slack < minimum` test that also records the new minimum")
+				}
 			}
 		}
+		expand(cand)
 	})
 	if nret == 0 {
 		bad = append(bad, "no return")
@@ -896,4 +936,103 @@ func opt1StepForm(m *Model, r *RuleResult, f *ssa.Function, l *loopInfo, key, po
 	checkLeaveSelector(m, r, leave.Call.StaticCallee(), ctl)
 	checkEnterSelector(m, r, enter.Call.StaticCallee(), ctl)
 	return true
+}
+
+// opt1InLoopForm: a budget-counted loop whose body selects the leave edge itself:
+// `for i := 0; i < max; i++ { e := leave(g.Edges); if e == nil { break }; f := enter(g.Edges, e); if f == nil { break }; exchange(e, f) }`.
+// Besides the header's own test (the budget, CAP-1) the loop may be left only on the nil branch of a test of one of the two
+// selections made in that iteration. Returns false when the loop is not of this form.
+func opt1InLoopForm(m *Model, r *RuleResult, f *ssa.Function, l *loopInfo, key, pos string, ctl bool) bool {
+	isEdgeSel := func(c *ssa.Function) bool {
+		return c != nil && sliceParamOf(c) != nil && c.Signature.Results().Len() == 1 && namedKey(c.Signature.Results().At(0).Type()) == igEdge
+	}
+	var selCalls []*ssa.Call
+	eachInstr(f, func(in ssa.Instruction) {
+		if call, ok := in.(*ssa.Call); ok && l.Body[in.Block()] && isEdgeSel(call.Call.StaticCallee()) {
+			selCalls = append(selCalls, call)
+		}
+	})
+	if len(selCalls) != 2 {
+		return false
+	}
+	leave, enter := selCalls[0], selCalls[1]
+	for _, x := range leave.Call.Args {
+		if x == ssa.Value(enter) {
+			leave, enter = enter, leave
+		}
+	}
+	uses := false
+	for _, x := range enter.Call.Args {
+		if x == ssa.Value(leave) {
+			uses = true
+		}
+	}
+	if !uses {
+		return false
+	}
+	var bad []string
+	nNilExit := 0
+	for b := range l.Body {
+		for i, s := range b.Succs {
+			if l.Body[s] || b == l.Head {
+				continue
+			}
+			iff, ok := b.Instrs[len(b.Instrs)-1].(*ssa.If)
+			if !ok {
+				bad = append(bad, "the loop is left unconditionally at "+m.Pos(b.Instrs[len(b.Instrs)-1].Pos()))
+				continue
+			}
+			okExit := false
+			if bo, ok := iff.Cond.(*ssa.BinOp); ok {
+				if k, isK := bo.Y.(*ssa.Const); isK && k.Value == nil {
+					isNilBranch := (bo.Op == token.EQL && i == 0) || (bo.Op == token.NEQ && i == 1)
+					if isNilBranch && bo.X == ssa.Value(leave) {
+						okExit = true
+						nNilExit++
+					}
+					if isNilBranch && bo.X == ssa.Value(enter) {
+						okExit = true
+					}
+				}
+			}
+			if !okExit {
+				bad = append(bad, "the loop is left under "+iff.Cond.String()+" at "+m.Pos(iff.Cond.Pos())+" although the leave-edge selector may have returned an edge")
+			}
+		}
+	}
+	if nNilExit == 0 {
+		bad = append(bad, "the loop never stops on a missing leave edge")
+	}
+	if len(bad) == 0 {
+		r.add(Obligation{Key: key + ":runs-while-leave-edge", Pos: pos, Desc: "the pivot loop stops (budget aside) only when the selection made in that iteration finds no leave edge (or no enter edge)", Verdict: "holds", Control: ctl})
+	} else {
+		r.add(Obligation{Key: key + ":runs-while-leave-edge", Pos: pos, Desc: "the pivot loop may stop only when no leave edge exists", Verdict: "violation", Detail: strings.Join(uniq(bad), "; "), Control: ctl})
+	}
+	okList := false
+	for _, a := range leave.Call.Args {
+		for _, o := range originsOf(a, 0) {
+			if o.Kind == "fieldload" && o.Loc == igDG+".Edges" {
+				okList = true
+			}
+		}
+	}
+	if okList {
+		r.add(Obligation{Key: key + ":leave-edge-source", Pos: pos, Desc: "every iteration selects the leave edge from g.Edges with the same selector", Verdict: "holds", Control: ctl})
+	} else {
+		r.add(Obligation{Key: key + ":leave-edge-source", Pos: pos, Desc: "the leave edge must be re-selected from the whole edge list in every iteration", Verdict: "violation", Detail: "the selector is not applied to g.Edges", Control: ctl})
+	}
+	checkLeaveSelector(m, r, leave.Call.StaticCallee(), ctl)
+	checkEnterSelector(m, r, enter.Call.StaticCallee(), ctl)
+	return true
+}
+
+// transitiveControlDepsWithin: control dependences of b that lie inside loop l, not followed through the loop head
+func transitiveControlDepsWithin(b *ssa.BasicBlock, l *loopInfo) []ctrlDep {
+	var out []ctrlDep
+	for _, d := range iterationControlDeps(b, []*loopInfo{l}) {
+		if l.Body[d.If.Block()] {
+			out = append(out, d)
+		}
+	}
+	return out
 }
